@@ -9,7 +9,7 @@ t=$(cd /tmp/wt/b-$id && ./polyseed-tests 2>&1 | tail -1); n=$(cd /tmp/wt/b-$id &
 echo "tests-with-change: $t ($n PASSED)"
 rm -rf /tmp/wt/b-$id
 gcc -O1 -w -DPOLYSEED_STATIC -iquote $wt/src -I$wt/include $out/demo.c $wt/src/*.c -lutf8proc -o /tmp/wt/demo-$id-mut 2>/tmp/wt/cc-$id.log || { echo "demo compile failed (mut)"; head -5 /tmp/wt/cc-$id.log; }
-gcc -O1 -w -DPOLYSEED_STATIC -iquote /repo/src -I/repo/include $out/demo.c /repo/src/*.c -lutf8proc -o /tmp/wt/demo-$id-orig 2>/tmp/wt/cc-$id.log || { echo "demo compile failed (orig)"; head -5 /tmp/wt/cc-$id.log; }
+gcc -O1 -w -DPOLYSEED_STATIC -iquote /tmp/w/repo0/src -I/tmp/w/repo0/include $out/demo.c /tmp/w/repo0/src/*.c -lutf8proc -o /tmp/wt/demo-$id-orig 2>/tmp/wt/cc-$id.log || { echo "demo compile failed (orig)"; head -5 /tmp/wt/cc-$id.log; }
 /tmp/wt/demo-$id-mut >/tmp/wt/demo-$id-mut.out 2>&1; echo "demo with change: rc=$? $(tail -1 /tmp/wt/demo-$id-mut.out | cut -c1-150)"
 /tmp/wt/demo-$id-orig >/tmp/wt/demo-$id-orig.out 2>&1; echo "demo original: rc=$? $(tail -1 /tmp/wt/demo-$id-orig.out | cut -c1-150)"
 rm -f /tmp/wt/demo-$id-mut /tmp/wt/demo-$id-orig
